@@ -18,12 +18,12 @@ type Style struct {
 	TrailWS      int    `json:"trailws,omitempty"`      // rate of trailing blanks on directive lines
 	TrailComment int    `json:"trailcomment,omitempty"` // rate of trailing '# comment'
 	// NoFinalNL: the root file ends without a line end.
-	NoFinalNL bool `json:"noFinalNL,omitempty"`
-	Quote     int  `json:"quote,omitempty"`        // rate of quoting parameters that need no quotes
-	Parens       int    `json:"parens,omitempty"`       // rate of putting children in explicit parentheses
-	AnnBlock     int    `json:"annblock,omitempty"`     // rate of /* */ instead of //
-	DescParens   int    `json:"descparens,omitempty"`   // rate of parenthesised descriptions
-	Seed         uint64 `json:"seed,omitempty"`
+	NoFinalNL  bool   `json:"noFinalNL,omitempty"`
+	Quote      int    `json:"quote,omitempty"`      // rate of quoting parameters that need no quotes
+	Parens     int    `json:"parens,omitempty"`     // rate of putting children in explicit parentheses
+	AnnBlock   int    `json:"annblock,omitempty"`   // rate of /* */ instead of //
+	DescParens int    `json:"descparens,omitempty"` // rate of parenthesised descriptions
+	Seed       uint64 `json:"seed,omitempty"`
 	// OnlyKnob / OnlyN: position-exhaustive mode - exactly one rewrite is
 	// applied, the OnlyN-th (1-based) choice point of knob OnlyKnob; everything
 	// else is neutral.
